@@ -30,6 +30,8 @@ type rawPeer struct {
 	pos  int
 	spec Peer
 	t0   time.Time
+	// timeout: the registration timeout in force when this peer's handshake starts
+	timeout time.Duration
 
 	conn net.Conn
 	mux  multiplex.Mux
@@ -169,7 +171,7 @@ func (p *rawPeer) script(pred *rawPeer) {
 			}
 		}
 		select {
-		case <-time.After(2 * regTimeout):
+		case <-time.After(2 * p.timeout):
 		case <-p.release:
 			return
 		}
@@ -386,6 +388,7 @@ func (p *rawPeer) wireMethods() []string {
 // PeerRecord is what a peer saw, for the oracle and the replay file.
 type PeerRecord struct {
 	Pos        int             `json:"pos"`
+	TimeoutMs  int             `json:"timeout_in_force_ms,omitempty"`
 	Spec       Peer            `json:"spec"`
 	Sentinel   bool            `json:"sentinel,omitempty"`
 	Valid      bool            `json:"expected_valid"`
